@@ -428,7 +428,13 @@ func ParseRange(s string) (start, end int64, ok bool) {
 	}
 	p0, err0 := strconv.ParseInt(p0s, 10, 64)
 	p1, err1 := strconv.ParseInt(p1s, 10, 64)
-	if p1 > 0 {
+	// The inclusive end becomes exclusive, so that the empty range at
+	// offset N, printed by RangeString as "N-(N-1)", is read back as [N, N).
+	// The exception is "0-0", which by convention stands for the empty
+	// range at offset zero (it is what an upload with no data reports),
+	// although it also denotes the single first byte: see chunkRange
+	// in ociserver for how Content-Length disambiguates that case.
+	if p1 > 0 || p0 > 0 {
 		p1++
 	}
 	return p0, p1, err0 == nil && err1 == nil
